@@ -34,7 +34,8 @@ type c40Actor struct {
 
 // c40Program is the generated case.
 type c40Program struct {
-	Focus  int // index into c40Focus: the path most steps of this program gang up on
+	Focus  int  // index into c40Focus: the path most steps of this program gang up on
+	Seed   bool // a fake publisher is attached to the focus path before the actors start (readers find a stream)
 	Actors []c40Actor
 }
 
@@ -71,7 +72,7 @@ func (s c40Step) String() string {
 
 func (p c40Program) String() string {
 	b := &strings.Builder{}
-	fmt.Fprintf(b, "focus=%s ", c40Focus[p.Focus][0])
+	fmt.Fprintf(b, "focus=%s seed=%v ", c40Focus[p.Focus][0], p.Seed)
 	for i, a := range p.Actors {
 		if i > 0 {
 			b.WriteString(" || ")
@@ -240,6 +241,7 @@ func c40GenProgram(t *rapid.T) c40Program {
 	n := rapid.IntRange(2, 6).Draw(t, "actors")
 	var p c40Program
 	p.Focus = rapid.IntRange(0, len(c40Focus)-1).Draw(t, "focus")
+	p.Seed = rapid.IntRange(0, 3).Draw(t, "seed") > 0
 	stopper := false
 	for i := 0; i < n; i++ {
 		var kind string
